@@ -84,7 +84,7 @@ PROPS["C16"] = dict(
 PROPS["C13"] = dict(
     modules=["Hub.Props.C13", "Hub.Props.IdTxn"],
     gens=["c13", "c05", "store-c05"],
-    rule="(store-c05) forced schedules of two writers: the outer batch or transaction runs until it reaches one of the points tools/instr inserts into copies of StoreEntities / ExecuteTransaction / commitIDTxn (after filling the transaction, before and after the commit of the shared id transaction, after the data commit, after the counter update), there a second write — same or another dataset, sharing never-seen identifiers with the first, sometimes rejected after it has drawn identifiers — is started on a second goroutine and the first waits until it has returned or is parked on a lock; both must return and every read afterwards must be that of the two writes one after the other; (a) random sequences of namespace assertions, URI compactions (hash/slash namespaces, empty local part, colons/slashes/hashes/non-ASCII in "
+    rule="(c13.ns assertNested) while one caller of AssertPrefixMappingForExpansion is in front of a lock acquisition (a schedule point inserted by tools/instr), a second caller runs the whole function, mostly for the same expansion: every expansion keeps exactly one prefix; (store-c05) forced schedules of two writers: the outer batch or transaction runs until it reaches one of the points tools/instr inserts into copies of StoreEntities / ExecuteTransaction / commitIDTxn (after filling the transaction, before and after the commit of the shared id transaction, after the data commit, after the counter update), there a second write — same or another dataset, sharing never-seen identifiers with the first, sometimes rejected after it has drawn identifiers — is started on a second goroutine and the first waits until it has returned or is parked on a lock; both must return and every read afterwards must be that of the two writes one after the other; (a) random sequences of namespace assertions, URI compactions (hash/slash namespaces, empty local part, colons/slashes/hashes/non-ASCII in "
          "the local part), CURIE expansions and store restarts against the real NamespaceManager, every answer and the final prefix table compared; "
          "(b) identifiers introduced as entity ids in batches with restarts in between, rank order of their internal ids compared (ids never change, "
          "never collide, later ones are larger); non-trivial = at least two namespaces / three ids and at least one restart",
